@@ -86,7 +86,8 @@ def case_json(prev_rows, P, E):
                 c.create_checkpoint(FOLDER)
             ops = list(dry.ops)
             nops = len(ops)
-            ctx.scratch["json_done"] = next((i + 1 for i, o in enumerate(ops) if o == f"write {FOLDER}/calibration_params.json"), 0)
+            # first operation after which calibration_params.json holds the NEW counters (direct write, or rename into place)
+            ctx.scratch["json_done"] = next((i + 1 for i, o in enumerate(ops) if o == f"write {FOLDER}/calibration_params.json" or o.endswith(f"-> {FOLDER}/calibration_params.json")), 0)
             crash = ctx.int("crash_op", 0, nops)  # nops = the save completes
             k = int(crash)
             partial = False
